@@ -1,4 +1,5 @@
 SPECIFICATION Spec
+CONSTANT Prop = "C01"
 CONSTRAINT Mark
 POSTCONDITION AllAccepted
 CHECK_DEADLOCK FALSE
